@@ -172,6 +172,7 @@ class Interp:
         self.io_failures = False  # when set: a writer's write() may fail with DeviceWriteError after the line was handed to it
         self.key_poly = {}        # canonical key of a compared polynomial -> the polynomial (for rules that use equalities)
         self.unresolved_calls = {}
+        self._memo_reads = {}
         self.resolved_calls = 0
         # per path
         self.heap = {}
@@ -513,8 +514,12 @@ class Interp:
         if isinstance(v, Unk):
             if v.typ and v.typ != "opt":
                 return False
+            if v.tag.startswith(self.ARITHMETIC_TAGS):
+                return False                     # the result of an arithmetic operator is never None
             return self.decide("isnone:" + v.tag, [False, True])
         return False
+
+    ARITHMETIC_TAGS = tuple(f"{n}(" for n in ("add", "sub", "mult", "div", "matmult", "floordiv", "mod", "pow", "unary"))
 
     # ================================================================ names
     def lookup_name(self, name: str, frame: Frame, node=None):
@@ -570,7 +575,7 @@ class Interp:
     BUILTINS = {"len", "isinstance", "str", "float", "int", "abs", "max", "min", "bool", "bytes", "dict", "list",
                 "tuple", "set", "zip", "enumerate", "map", "range", "sorted", "next", "iter", "hasattr", "getattr",
                 "type", "any", "all", "super", "print", "round", "repr", "id", "sum", "reversed", "object", "frozenset",
-                "callable", "issubclass", "setattr", "filter", "ord", "chr", "divmod", "pow", "open", "format", "vars"}
+                "callable", "issubclass", "setattr", "filter", "ord", "chr", "divmod", "pow", "open", "format", "vars", "__import__"}
     BUILTIN_EXC = {"ValueError", "TypeError", "KeyError", "IndexError", "RuntimeError", "Exception", "IOError",
                    "OSError", "AttributeError", "StopIteration", "NotImplementedError", "ZeroDivisionError",
                    "BaseException", "UnicodeDecodeError", "LookupError", "AssertionError", "TimeoutError",
@@ -1015,8 +1020,10 @@ class Interp:
         idx = self.eval(e.slice, fr)
         return self.getitem(base, idx, e)
 
-    def const_int(self, v):
+    def const_int(self, v, bools=False):
         v = self.force(v)
+        if bools and isinstance(v, Const) and isinstance(v.v, bool):
+            return int(v.v)                      # a bool used as an index: (a, b)[flag]
         if isinstance(v, Const) and isinstance(v.v, int) and not isinstance(v.v, bool):
             return v.v
         if isinstance(v, Num) and v.p.is_const() and v.p.const_value().denominator == 1:
@@ -1083,7 +1090,7 @@ class Interp:
                 and len(self.heap[idx.addr].items) == len(base.items) and all(isinstance(m, Const) and isinstance(m.v, bool) for m in self.heap[idx.addr].items):
             return ArrV(tuple(x for x, m in zip(base.items, self.heap[idx.addr].items) if m.v))
         if isinstance(base, (Tup, NT, ArrV)):
-            i = self.const_int(idx)
+            i = self.const_int(idx, bools=True)
             if i is not None:
                 if -len(base.items) <= i < len(base.items):
                     return base.items[i]
@@ -1097,7 +1104,7 @@ class Interp:
                     return self.call_function(f, [base, idx], {}, node, dyncls=o.cls)
                 return self.dict_get(o, idx, node, base, strict=not o.upper)
             if isinstance(o, AList):
-                i = self.const_int(idx)
+                i = self.const_int(idx, bools=True)
                 if o.items is not None and i is not None:
                     if -len(o.items) <= i < len(o.items):
                         return o.items[i]
@@ -1108,7 +1115,7 @@ class Interp:
                 if f is not None:
                     return self.call_function(f, [base, idx], {}, node, dyncls=o.cls)
         if isinstance(base, Const) and isinstance(base.v, (str, bytes, tuple)):
-            i = self.const_int(idx)
+            i = self.const_int(idx, bools=True)
             if i is not None:
                 try:
                     return Const(base.v[i])
@@ -1133,6 +1140,24 @@ class Interp:
             return NONE
         cb = f.yield_cb
         cb(val)
+        return NONE
+
+    def e_YieldFrom(self, e, fr):
+        src = self.force(self.eval(e.value, fr))
+        f = fr
+        while f is not None and f.yield_cb is None:
+            f = f.parent
+        if f is None or f.yield_cb is None:
+            return NONE
+        cb = f.yield_cb
+        if isinstance(src, GenFn):
+            # the delegate's body runs here; what the consumer raises at a yield point travels through its try/finally blocks
+            self.run_generator(src, cb)
+            return NONE
+        if isinstance(src, Unk):
+            raise AnalysisError(f"yield from an iterable the analysis cannot enumerate (line {getattr(e, 'lineno', '?')})")
+        for v in self.iterate(src, e):
+            cb(v)
         return NONE
 
     def e_NamedExpr(self, e, fr):
@@ -1292,9 +1317,20 @@ class Interp:
                     d.keymap = "upper"
         elif isinstance(src, Const) and src.v is None:
             self.raise_("TypeError", node, note="None is not a mapping")
+        elif (pairs := self._pairs(src, node)) is not None:
+            for k, v in pairs:                            # an iterable of (key, value) pairs: zip(...), a list of tuples
+                d.entries[self.dkey(d, k)] = v
         else:
             d.open = True
             d.bases = d.bases + (f"map({self.tag(src)})",)
+
+    def _pairs(self, src, node):
+        """The (key, value) pairs of an enumerable iterable of 2-tuples, else None."""
+        if isinstance(src, (IterV, Tup, GenV)) or (isinstance(src, Ref) and isinstance(self.deref(src), AList) and self.deref(src).items is not None):
+            items = [self.force(x) for x in self.iterate(src, node)]
+            out = [(x.items[0], x.items[1]) for x in items if isinstance(x, Tup) and len(x.items) == 2]
+            return out if len(out) == len(items) else None
+        return None
 
     def dict_has(self, d: ADict, k, ref=None) -> bool:
         kk = self.dkey(d, k)
@@ -1611,9 +1647,65 @@ class Interp:
             return self.ext_call(fv, args, kwargs, node)
         if isinstance(fv, Closure):
             return self.call_closure(fv, args, kwargs, node)
-        if isinstance(fv, Tup) and False:
-            pass
+        if isinstance(fv, MemoV):
+            inner = self.force(fv.func)
+            if isinstance(inner, FuncV):
+                self.note_memoised(inner.func, node)
+            else:
+                self.emit("NOTE", node, what="memoised-call", func=self.tag(inner), reads=("<callable the analysis cannot inspect>",))
+            return self.call(inner, args, kwargs, node)
+        if isinstance(fv, PartialV):
+            if fv.kind == "partial":
+                kw = dict(fv.kwargs)
+                kw.update(kwargs)
+                return self.call(fv.func, list(fv.args) + list(args), kw, node)
+            if fv.kind == "itemgetter":
+                got = [self.getitem(args[0], k, node) for k in fv.args]
+                return got[0] if len(got) == 1 else Tup(tuple(got))
+            if fv.kind == "attrgetter":
+                def walk(o, dotted):
+                    for part in dotted.split("."):
+                        o = self.getattr(o, part, node)
+                    return o
+                got = [walk(args[0], self.strval(k)) for k in fv.args]
+                return got[0] if len(got) == 1 else Tup(tuple(got))
+            if fv.kind == "methodcaller":
+                return self.call(self.getattr(args[0], self.strval(fv.func), node), list(fv.args), dict(fv.kwargs), node)
         return self.ext_call(fv, args, kwargs, node)
+
+    MEMO_DECORATORS = ("lru_cache", "cache", "cached_property")
+
+    def mutable_state_reads(self, f):
+        """Attributes of `self` a function body reads although some method other than __init__ assigns them:
+        state a memoised result depends on without it being part of the cache key."""
+        out = self._memo_reads.get(f.qualname)
+        if out is not None:
+            return out
+        out = []
+        ci = f.cls
+        a = f.node.args
+        first = (a.posonlyargs + a.args)[0].arg if (ci is not None and not f.is_staticmethod and (a.posonlyargs + a.args)) else None
+        if first is not None:
+            assigned = set()
+            for c in ci.mro():
+                for fn in c.methods.values():
+                    if fn.node.name == "__init__":
+                        continue
+                    for n in ast.walk(fn.node):
+                        targets = n.targets if isinstance(n, ast.Assign) else ([n.target] if isinstance(n, (ast.AnnAssign, ast.AugAssign)) else [])
+                        for t in targets:
+                            for tt in (t.elts if isinstance(t, ast.Tuple) else [t]):
+                                if isinstance(tt, ast.Attribute) and isinstance(tt.value, ast.Name) and tt.value.id == "self":
+                                    assigned.add(tt.attr)
+            for n in ast.walk(f.node):
+                if isinstance(n, ast.Attribute) and isinstance(n.ctx, ast.Load) and isinstance(n.value, ast.Name) and n.value.id == first \
+                        and n.attr in assigned and n.attr not in out:
+                    out.append(n.attr)
+        self._memo_reads[f.qualname] = tuple(out)
+        return tuple(out)
+
+    def note_memoised(self, f, node):
+        self.emit("NOTE", node, what="memoised-call", func=f.qualname, reads=self.mutable_state_reads(f))
 
     def ext_call(self, fv, args, kwargs, node):
         tag = self.tag(fv)
@@ -1696,6 +1788,8 @@ class Interp:
         if sum(1 for fr in self.frames if fr.func is f) > 6:
             return Unk(self.fresh(f"rec({f.qualname})"))
         self.resolved_calls += 1
+        if f.decorators & set(self.MEMO_DECORATORS):
+            self.note_memoised(f, node)
         if f.is_abstract and not f.node.body[1:]:
             return Unk(self.fresh(f"abstract({f.qualname})"))
         selfv = args[0] if (f.cls is not None and not f.is_staticmethod and args) else None
